@@ -212,7 +212,10 @@ func genC17(t *simrt.Tape, tier string) Scenario {
 		sc.EmptyHeader = true
 	}
 	sc.Timeout = []int64{0, 0, 30000, 1 << 40, 1 << 62, 1<<63 - 1}[t.Choose(6)]
-	sc.BodyKind = []string{"obj", "obj", "none"}[t.Choose(3)]
+	sc.BodyKind = []string{"obj", "obj", "none", "zero-int", "zero-struct", "empty-string"}[t.ChooseW([]int{4, 4, 3, 1, 1, 1})]
+	if sc.BodyKind != "obj" && sc.BodyKind != "none" && !(sc.Ctor == "PostJSON" || sc.Ctor == "PutJSON" || sc.Ctor == "PatchJSON") {
+		sc.BodyKind = "obj" // the zero-valued bodies (0, "", a zero struct: values like any other) go through the JSON constructors
+	}
 	faults := []string{"none", "none", "none", "serializer", "transport", "torn", "empty", "malformed", "deserializer-nil", "missing-file", "read-error-after-body", "interceptor-error"}
 	sc.Fault = faults[t.Choose(len(faults))]
 	sc.TornAt = t.Choose(12)
@@ -364,11 +367,38 @@ func (sc *c17Scenario) Run(s *simrt.Sim) {
 		case "GenericNoBody":
 			io_ = network.APIMakeDoNewRequest[c17Resp](api, sc.Method, sc.Template)(params, target)
 		case "PostJSON":
-			io_ = network.APIMakePostJSONBody[*c17Body, c17Resp](api, sc.Template)(params, jsonBody, target)
+			switch sc.BodyKind {
+			case "zero-int":
+				io_ = network.APIMakePostJSONBody[int, c17Resp](api, sc.Template)(params, 0, target)
+			case "zero-struct":
+				io_ = network.APIMakePostJSONBody[c17Body, c17Resp](api, sc.Template)(params, c17Body{}, target)
+			case "empty-string":
+				io_ = network.APIMakePostJSONBody[string, c17Resp](api, sc.Template)(params, "", target)
+			default:
+				io_ = network.APIMakePostJSONBody[*c17Body, c17Resp](api, sc.Template)(params, jsonBody, target)
+			}
 		case "PutJSON":
-			io_ = network.APIMakePutJSONBody[*c17Body, c17Resp](api, sc.Template)(params, jsonBody, target)
+			switch sc.BodyKind {
+			case "zero-int":
+				io_ = network.APIMakePutJSONBody[int, c17Resp](api, sc.Template)(params, 0, target)
+			case "zero-struct":
+				io_ = network.APIMakePutJSONBody[c17Body, c17Resp](api, sc.Template)(params, c17Body{}, target)
+			case "empty-string":
+				io_ = network.APIMakePutJSONBody[string, c17Resp](api, sc.Template)(params, "", target)
+			default:
+				io_ = network.APIMakePutJSONBody[*c17Body, c17Resp](api, sc.Template)(params, jsonBody, target)
+			}
 		case "PatchJSON":
-			io_ = network.APIMakePatchJSONBody[*c17Body, c17Resp](api, sc.Template)(params, jsonBody, target)
+			switch sc.BodyKind {
+			case "zero-int":
+				io_ = network.APIMakePatchJSONBody[int, c17Resp](api, sc.Template)(params, 0, target)
+			case "zero-struct":
+				io_ = network.APIMakePatchJSONBody[c17Body, c17Resp](api, sc.Template)(params, c17Body{}, target)
+			case "empty-string":
+				io_ = network.APIMakePatchJSONBody[string, c17Resp](api, sc.Template)(params, "", target)
+			default:
+				io_ = network.APIMakePatchJSONBody[*c17Body, c17Resp](api, sc.Template)(params, jsonBody, target)
+			}
 		case "GenericJSON":
 			io_ = network.APIMakeDoNewRequestWithBodySerializer[*c17Body, c17Resp](api, sc.Method, sc.Template, "application/json", api.RequestSerializerForJSON)(params, jsonBody, target)
 		case "PostMultipart":
@@ -462,7 +492,7 @@ func (sc *c17Scenario) Run(s *simrt.Sim) {
 		}
 		sent := len(tr.recs) - before
 		wantSent := 1
-		if sc.Fault == "serializer" && sc.BodyKind == "obj" && (sc.isJSON() || sc.isMultipart()) {
+		if sc.Fault == "serializer" && sc.BodyKind != "none" && (sc.isJSON() || sc.isMultipart()) {
 			wantSent = 0
 		}
 		if sc.Fault == "missing-file" && sc.BodyKind == "obj" && sc.isMultipart() {
@@ -568,6 +598,19 @@ func (sc *c17Scenario) checkRequest(rec c17Rec, serialized [][]byte, add func(cl
 			want, _ := json.Marshal(&c17Body{Name: "n1", N: 7})
 			if !bytes.Equal(rec.body, want) {
 				add("body", "json-body-differs", fmt.Sprintf("sent body %q, the serializer's output is %q", rec.body, want))
+			}
+		} else if sc.BodyKind != "none" {
+			var v interface{} = 0
+			switch sc.BodyKind {
+			case "zero-struct":
+				v = c17Body{}
+			case "empty-string":
+				v = ""
+			}
+			want, _ := json.Marshal(v)
+			sc.probes["zero-valued-body"]++
+			if !bytes.Equal(rec.body, want) {
+				add("body", "zero-valued-json-body-differs", fmt.Sprintf("body %s: sent %q, the serializer's output for that value is %q", sc.BodyKind, rec.body, want))
 			}
 		} else if len(rec.body) != 0 {
 			add("body", "body-without-body", fmt.Sprintf("sent body %q although the body is nil", rec.body))
